@@ -1223,8 +1223,12 @@ class AbsInt:
                 try:
                     if self.prove_le(old, x, a) and self.prove_le(new, x, c):
                         res.le.add(('le', x, P))
+                        if self.prove_le(old, x, a, True) and self.prove_le(new, x, c, True):
+                            res.le.add(('lt', x, P))
                     if self.prove_le(old, a, x) and self.prove_le(new, c, x):
                         res.le.add(('le', P, x))
+                        if self.prove_le(old, a, x, True) and self.prove_le(new, c, x, True):
+                            res.le.add(('lt', P, x))
                 except RecursionError:
                     pass
         j = joinitv(ia, ic)
